@@ -54,6 +54,9 @@ pub fn scenario_ex(ctx: &mut Ctx, r: &mut Rng, focus: Focus, monitor: fn(&mut Ct
         (Ok(_), Ok(_)) => ctx.bucket("outcome.built"),
     }
     ctx.bucket(&format!("balance.{}.{}", balance_name(&o.balance), if o.balance_result.is_ok() { "ok" } else { "err" }));
+    if o.tuned {
+        ctx.bucket(&format!("tuned.applied.{}", match (&o.balance_result, &o.build_result) { (Err(_), _) => "balance-err", (Ok(_), Err(_)) => "build-err", _ => "built" }));
+    }
     if let (Err(_), Some(f)) = (&o.balance_result, on_balance_err) {
         f(ctx, &o);
     }
@@ -68,6 +71,62 @@ pub fn scenario_ex(ctx: &mut Ctx, r: &mut Rng, focus: Focus, monitor: fn(&mut Ct
             Err(e) => ctx.violation("built-tx/not-well-formed-cbor", json!({"error": e.0, "tx": hx(bytes), "log": o.log})),
         }
     }
+}
+
+/// scenarios tuned to the change edge: a history is run once (not judged) to see how much change it
+/// returns; the first key input is then made poorer so that the leftover lands around one of the
+/// thresholds of the change logic - nothing left, a few lovelace left, just below / at / just above the
+/// minimum ADA of the change output, just across a CBOR width boundary of fee or change - and the
+/// history is run again on the same random stream and judged
+pub fn scenario_tuned(ctx: &mut Ctx, r: &mut Rng, focus: Focus, monitor: fn(&mut Ctx, &Outcome, &Tx, &KeyRing)) {
+    let ringr = ring(ctx);
+    let mut r1 = r.clone();
+    let first = match run_scenario(&mut r1, ringr, focus.clone()) {
+        Some(o) => o,
+        None => return,
+    };
+    let bytes = match &first.tx_bytes {
+        Some(b) => b.clone(),
+        None => {
+            ctx.bucket("tuned.first-run-built-nothing");
+            return scenario(ctx, r, focus, monitor);
+        }
+    };
+    let tx = match Tx::parse(&bytes) {
+        Ok(t) => t,
+        Err(_) => return,
+    };
+    // change returned by the first run (lovelace, over all outputs to the change address)
+    let change: Vec<&cbor::Item> = tx.outputs().unwrap_or_default().into_iter().filter(|x| ledger::output_address(x).as_deref() == Some(&first.change_addr[..])).collect();
+    let change_coin: i128 = change.iter().filter_map(|c| ledger::output_value(c).ok()).map(|v| v.coin).sum();
+    if change.is_empty() || change_coin <= 0 {
+        ctx.bucket("tuned.first-run-without-change");
+        return scenario(ctx, r, focus, monitor);
+    }
+    // the minimum of a change output like the last one
+    let cpb = first.params.coins_per_byte as i128;
+    let last_len = change.last().map(|c| (c.end - c.start) as i128).unwrap_or(60);
+    let min_change = cpb * (160 + last_len);
+    let j = r1.below(300) as i128;
+    let (target, what) = match r1.below(9) {
+        0 => (0, "nothing-left"),
+        1 => (1 + j, "a-few-lovelace-left"),
+        2 => (min_change - 1 - j, "just-below-min-ada"),
+        3 => (min_change, "exactly-min-ada"),
+        4 => (min_change + 1 + j, "just-above-min-ada"),
+        5 => (65_536 + j - 150, "around-2^16"),
+        6 => ((1i128 << 32) + j - 150, "around-2^32"),
+        7 => (min_change - 5_000 - j * 20, "below-min-ada-by-a-fee"),
+        _ => (min_change * 2 + j - 150, "around-twice-min-ada"),
+    };
+    let delta = change_coin - target.max(0);
+    if delta <= 0 {
+        ctx.bucket("tuned.target-above-change");
+        return scenario(ctx, r, focus, monitor);
+    }
+    ctx.bucket(&format!("tuned.second-run.{}", what));
+    let f2 = Focus { tune_first_key_input: Some(delta), ..focus };
+    scenario(ctx, r, f2, monitor)
 }
 
 pub fn balance_name(b: &Balance) -> &'static str {
